@@ -99,12 +99,31 @@ Theorem C06_pushbacklist : forall s a l o,
 Proof. exact pushbacklist_values. Qed.
 Print Assumptions C06_pushbacklist.
 
-(* A call panics only with a nil element argument, with a nil dereference, and changes nothing. *)
+(* PushFrontList (also of a list onto itself): fresh cells carrying the old values of o, in o's
+   order, are placed in front of the old contents (the copy of o's last element is made first and
+   has the smallest id); no other list changes. *)
+Theorem C06_pushfrontlist : forall s a l o,
+  Rep s a -> l < length (a_lists a) -> o < length (a_lists a) ->
+  exists s' a', list_PushFrontList l o s = Ok s' /\ Rep s' a' /\
+    a_seq a' l = rev (seq (fresh a) (length (a_seq a o))) ++ a_seq a l /\
+    map (a_val a') (a_seq a' l) = map (a_val a) (a_seq a o) ++ map (a_val a) (a_seq a l) /\
+    (forall l', l' <> l -> a_seq a' l' = a_seq a l').
+Proof. exact pushfrontlist_values. Qed.
+Print Assumptions C06_pushfrontlist.
+
+(* A panic in a covered history, located: if the i-th call panics then, in the very state the
+   first i calls have produced (abstract state a1, handle table h1, heap s1 representing a1),
+   that call has a nil element argument, the panic is a nil dereference, and the call changes
+   nothing: not the abstract state, not the heap, not the handle table. *)
 Theorem C06_list_panics : forall ops os a h i op k,
   spec_run ops = (os, a, h, true) ->
   nth_error ops i = Some op -> nth_error (fst (run ops)) i = Some (OPanic k) ->
-  k = NilDeref /\ exists a1 h1, nil_arg op h1 = true /\ spec_exec op a1 h1 = (OPanic NilDeref, a1, h1).
-Proof. exact list_panics_run. Qed.
+  exists os1 a1 h1 s1,
+    spec_run (firstn i ops) = (os1, a1, h1, true) /\ run (firstn i ops) = (os1, RState s1 h1) /\ Rep s1 a1 /\
+    k = NilDeref /\ nil_arg op h1 = true /\
+    spec_exec op a1 h1 = (OPanic NilDeref, a1, h1) /\
+    step op (RState s1 h1) = (OPanic NilDeref, RState s1 h1).
+Proof. exact list_panics_located. Qed.
 Print Assumptions C06_list_panics.
 
 (* The sequence operations of the specification mean what their names say. *)
@@ -201,7 +220,10 @@ Example C06_example :
   (let '(_, _, _, ok) := spec_run ops in ok) = true /\
   fst (run ops) = (let '(os, _, _, _) := spec_run ops in os) /\
   walk_fwd (st (snd (run ops))) 0 = Ok [7; 3; 6] /\
-  nth 10 (fst (run ops)) OUnit = OPanic NilDeref.
+  nth 10 (fst (run ops)) OUnit = OPanic NilDeref /\
+  (* the panicking call is op 10, MoveToBack with handle 9, which the table of 5 handles does not have *)
+  nil_arg (LMoveToBack 1 9) (hs (snd (run (firstn 10 ops)))) = true /\
+  snd (run (firstn 11 ops)) = snd (run (firstn 10 ops)).
 Proof. vm_compute. repeat split. Qed.
 
 (* Non-vacuity for rings: NewRing, a zero Ring, Link of different rings, Link
